@@ -6,7 +6,8 @@
    The state follows the code's rules (IndexRule "stable", LabelRule "code") so that it stays in step
    with the implementation; the properties' own rules are evaluated next to it:
      - label: LabelRule "lastwriter" (C10)
-     - an indexed reference must change at most one connection of the observed graph (C11). *)
+     - an indexed reference must change at most one connection of the observed graph (C11);
+     - connection labels under C12's rule for standing attribute globs (lblP). *)
 EXTENDS D2IR
 CONSTANT AttrProp    \* the property that attribute/label/shape disagreements are reported under: C10, or C12 for glob alphabets
 VARIABLES l, tid, prev
@@ -31,8 +32,13 @@ EdgesAgree(o, x) ==
   /\ Len(o.edges) = Len(x.edges)
   /\ \A j \in 1..Len(o.edges) : /\ EdgeKey(o.edges[j]) = EdgeKey(x.edges[j]) /\ o.edges[j].idx = x.edges[j].idx
                                 /\ o.edges[j].label = x.edges[j].label /\ Pairs(o.edges[j].attrs) = x.edges[j].attrs
+\* The connections a creation glob (* -> *) makes all first appear at the glob's own line, so the property fixes no order among
+\* them (the compiler sorts connections by source position with an unstable sort: from 13 connections on they come out
+\* permuted).  Once such a rule stands, connections are compared as a set; bundle + index still identify each of them.
+EdgeFacts(q, withAttrs) == {<<EdgeKey(q[j]), q[j].idx, q[j].label, IF withAttrs THEN q[j].attrs ELSE {}>> : j \in 1..Len(q)}
+EdgesAgreeSet(o, x) == Len(o.edges) = Len(x.edges) /\ EdgeFacts([j \in 1..Len(o.edges) |-> [o.edges[j] EXCEPT !.attrs = Pairs(@)]], TRUE) = EdgeFacts(x.edges, TRUE)
 
-Compare(o, x, xLast, d, clsLast) ==
+Compare(o, x, xLast, d, clsLast, unordered) ==
   /\ Chk([i \in 1..Len(o.objs) |-> o.objs[i].path] = [i \in 1..Len(x.objs) |-> x.objs[i].path], "C09", "objects-or-their-order-differ-from-first-appearance",
          <<[i \in 1..Len(o.objs) |-> o.objs[i].path], [i \in 1..Len(x.objs) |-> x.objs[i].path]>>)
   /\ d.k = "null" =>
@@ -51,9 +57,10 @@ Compare(o, x, xLast, d, clsLast) ==
          /\ Chk(o.objs[i].label = x.objs[i].label, AttrProp, "label-differs-from-model", <<o.objs[i].path, o.objs[i].label, x.objs[i].label>>)
          /\ Chk(o.objs[i].label = xLast.objs[i].label, "C10", "label-is-not-the-last-assignment", <<o.objs[i].path, o.objs[i].label, xLast.objs[i].label>>)
          /\ ("cls" \in DOMAIN o.objs[i]) => Chk(FoldPath(o.objs[i].cls) = clsLast[i], "C10", "class-is-not-the-last-assignment", <<o.objs[i].path, o.objs[i].cls, clsLast[i]>>)
-  /\ Chk([j \in 1..Len(o.edges) |-> EdgeKey(o.edges[j])] = [j \in 1..Len(x.edges) |-> EdgeKey(x.edges[j])], "C09", "connections-or-their-order-differ-from-declaration-order",
+  /\ Chk(IF unordered THEN {<<EdgeKey(o.edges[j]), o.edges[j].idx>> : j \in 1..Len(o.edges)} = {<<EdgeKey(x.edges[j]), x.edges[j].idx>> : j \in 1..Len(x.edges)} /\ Len(o.edges) = Len(x.edges)
+          ELSE [j \in 1..Len(o.edges) |-> EdgeKey(o.edges[j])] = [j \in 1..Len(x.edges) |-> EdgeKey(x.edges[j])], IF AttrProp = "C12" THEN "C12" ELSE "C09", "connections-or-their-order-differ-from-declaration-order",
          <<[j \in 1..Len(o.edges) |-> EdgeKey(o.edges[j])], [j \in 1..Len(x.edges) |-> EdgeKey(x.edges[j])]>>)
-  /\ Chk(EdgesAgree(o, x), IF d.k \in {"eref", "enull"} THEN "C11" ELSE "C10", "connection-label-attribute-or-index-differs",
+  /\ Chk(IF unordered THEN EdgesAgreeSet(o, x) ELSE EdgesAgree(o, x), IF d.k \in {"eref", "enull"} THEN "C11" ELSE AttrProp, "connection-label-attribute-or-index-differs",
          <<[j \in 1..Len(o.edges) |-> <<o.edges[j].idx, o.edges[j].label, o.edges[j].attrs>>], [j \in 1..Len(x.edges) |-> <<x.edges[j].idx, x.edges[j].label, x.edges[j].attrs>>]>>)
 
 Changed(a, b) == IF Len(a.edges) # Len(b.edges) THEN 99
@@ -78,7 +85,11 @@ Decl(e) ==
         THEN Chk(s1.err \/ s2.err, IF d.k \in {"eref", "enull"} THEN "C11" ELSE "C10", "valid-declaration-rejected", <<e.text, e.msg>>)
         ELSE /\ Chk(~(s1.err /\ s2.err), "C11", "reference-to-missing-index-accepted", e.text)
              /\ ObsWF(e.obs)
-             /\ ~s.err => Compare(e.obs, x, xLast, d, [i \in 1..Len(s.objs) |-> s.objs[i].clsLast])
+             /\ ~s.err => Compare(e.obs, x, xLast, d, [i \in 1..Len(s.objs) |-> s.objs[i].clsLast], s.grules # <<>>)
+             \* C12's own rule for a connection created under standing attribute globs: the creating declaration's label wins (DEVIATION-5)
+             /\ (~s.err /\ Len(e.obs.edges) = Len(s.edges)) =>
+                  Chk(EdgeFacts(e.obs.edges, FALSE) = EdgeFacts(ProjEdgesL(s, "property"), FALSE), "C12",
+                      "connection-label-is-not-the-last-assignment", <<EdgeFacts(e.obs.edges, FALSE) \ EdgeFacts(ProjEdgesL(s, "property"), FALSE), EdgeFacts(ProjEdgesL(s, "property"), FALSE) \ EdgeFacts(e.obs.edges, FALSE)>>)
              /\ d.k = "eref" => Chk(Changed(prev, e.obs) <= 1, "C11", "indexed-reference-changed-several-connections", <<e.text, Changed(prev, e.obs)>>)
 
 TInit == l = 1 /\ tid = 0 /\ st = Empty /\ prog = <<>> /\ prev = NoObs
